@@ -32,7 +32,10 @@ PINNED = ["C07_prompt_owner", "C07_owner_cases", "C07_bg_never_owner", "C07_grou
           "C07_mask_initial", "C07_give_terminal_mask", "C07_regress_failed_handover", "C07_simulation", "C07_table_is_C06", "C07_wait_exact", "C07_jobs_exact", "C07_lift_nonvacuous",
           "C07_regress_stage_outside_group", "C07_regress_count_waited", "C07_regress_stop_cont_parked",
           "C07_regress_exit_among_stopped", "C07_regress_partial_continue", "C07_nonvacuous",
-          "C07_wait_returns_settled", "C07_wait_gives_back_terminal", "C07_wait_fuel_suffices", "C07_wait_nonvacuous", "C07_settle_is_oracle_wait"]
+          "C07_wait_returns_settled", "C07_wait_gives_back_terminal", "C07_wait_fuel_suffices", "C07_wait_nonvacuous", "C07_settle_is_oracle_wait",
+          "C07_wait_returns_settled_fg", "C07_wait_fg_nonvacuous", "C07_kernel_K4", "C07_kernel_truthful",
+          "C07_settle_returns_settled", "C07_settle_nonvacuous",
+          "C07_wait_o_is_jobs_wait_loop", "C07_wait_fg_o_is_jobs_wait_fg_job", "C07_wait_o_echild_is_jobs_blocked", "C07_waitfg_is_jobs_wait_loop"]
 TRUSTED = ["Coq 8.16.1 kernel, extraction to OCaml, ocamlfind ocamlopt",
            "hand transcription of core.rs run_pipeline/run_single_program (setpgid, give_terminal_to, insert_job), "
            "execute.rs run_proc, jobc.rs, fg.rs, bg.rs, jobs.rs, main.rs read loop into Model/Term.v (tied by the pty sessions)",
